@@ -897,6 +897,7 @@ def from_shorthand(shorthand_string, slash=None):
         )
         if isinstance(slash, list):
             # This slash chord is the upper half of a polychord
+            slash = list(slash)
             for n in res:
                 if n != slash[-1]:
                     slash.append(n)
@@ -919,7 +920,7 @@ def from_shorthand(shorthand_string, slash=None):
                     )
             elif isinstance(slash, list):
                 # Add polychords
-                r = slash
+                r = list(slash)
                 for n in res:
                     if n != r[-1]:
                         r.append(n)
